@@ -7,7 +7,7 @@ event-shaped sites); `sim.ref` evaluates it in numpy float64 with Python loops.
 
 Blocks (h -> h):
   {"k":"site","a":addr,"d":dist,"kw":bool}
-  {"k":"call","a":addr,"m":model}
+  {"k":"call","a":addr,"m":model[,"g":gain]}   (g present: callee invoked as sub(h, gain=g), default gain=1.0)
   {"k":"vsite","a":addr,"d":dist,"n":n,"mode":"all"|"first"|"int0"|"repeat"}
   {"k":"vcall","a":addr,"m":model,"n":n,"mode":"axes"|"int0"|"repeat"}
   {"k":"scan","a":addr,"m":model,"n":T}          step(carry, x): h = carry + x; blocks; return (h, 0.5*h)
@@ -94,7 +94,11 @@ class Gen:
                 blocks.append({"k": "site", "a": a, "d": d,
                                "kw": bool(DISTS[d]["names"]) and rng.random() < 0.2})
             elif k == "call":
-                blocks.append({"k": "call", "a": a, "m": self.model(depth - 1, "", 2, in_vec)})
+                blk = {"k": "call", "a": a, "m": self.model(depth - 1, "", 2, in_vec)}
+                if rng.random() < 0.35:
+                    # callee invoked with a keyword argument that differs from its default (gain=1.0)
+                    blk["g"] = round(rng.uniform(0.6, 1.4), 2)
+                blocks.append(blk)
             elif k == "vsite":
                 d = rng.choice([x for x in self.dists])
                 mode = rng.choice(["all", "first", "int0", "repeat"])
@@ -162,7 +166,7 @@ def shape_key(m):
         if b["k"] == "vsite":
             return "vs:%s:%d:%s" % (b["d"], b["n"], b["mode"])
         if b["k"] == "call":
-            return "call(%s)" % shape_key(b["m"])
+            return "call%s(%s)" % ("k" if "g" in b else "", shape_key(b["m"]))
         if b["k"] == "vcall":
             return "vc%d%s(%s)" % (b["n"], b["mode"][0], shape_key(b["m"]))
         if b["k"] == "scan":
@@ -266,7 +270,10 @@ def build(model, fault=None, kind="top"):
                     x = dist_obj(b["d"])(*p) @ b["a"]
                 h = fold(jnp, h, x)
             elif k == "call":
-                h = subs[i](h) @ b["a"]
+                if "g" in b:
+                    h = subs[i](h, gain=b["g"]) @ b["a"]
+                else:
+                    h = subs[i](h) @ b["a"]
             elif k == "vsite":
                 spec = DISTS[b["d"]]
                 d = dist_obj(b["d"])
@@ -301,8 +308,9 @@ def build(model, fault=None, kind="top"):
 
     if kind == "top":
         @gen
-        def model_fn(h):
-            return run_blocks(model["blocks"], jnp.asarray(h, dtype=jnp.float32))
+        def model_fn(h, gain=1.0):
+            # gain: keyword parameter with a default (x * 1.0 is exact, so callers that omit it see h itself)
+            return run_blocks(model["blocks"], jnp.asarray(h, dtype=jnp.float32) * gain)
 
         return model_fn
 
